@@ -23,11 +23,12 @@ ExportClauses(e) ==
   IF ~e.built THEN {}
   ELSE IF ~Applicable(e) THEN {}
   ELSE IF ~e.exp.ok THEN {"ExportCompletes"}
+  ELSE IF Len(e.exp.lines) = 0 THEN {"Contiguous"}
   ELSE LET L == e.exp.lines IN
        XExportClauses(L, e.nodes, e.root, e.pfx, e.sub)
        \cup (IF "xth" \in DOMAIN e /\ [i \in 1..Len(e.nodes) |-> e.nodes[i].th] # e.xth THEN {"NodeSequent"} ELSE {})
-       \cup (IF GapsField(e) THEN {} ELSE {"GapsOfTerm"})
-       \cup (IF ~e.emb.ok THEN {"EmbedCompletes"}
+       \cup (IF "gaps" \in DOMAIN e /\ ~GapsField(e) THEN {"GapsOfTerm"} ELSE {})
+       \cup (IF "na" \in DOMAIN e.emb /\ e.emb.na THEN {} ELSE IF ~e.emb.ok THEN {"EmbedCompletes"}
              ELSE LET W == e.emb.lines IN
                   (IF XWholeContiguous(W) THEN {} ELSE {"WholeContiguous"})
                   \cup (IF XWholeCitations(W) THEN {} ELSE {"WholeCitations"})
@@ -41,7 +42,7 @@ ExportNontrivial(e) == e.built /\ Applicable(e) /\ e.exp.ok
 \* proof term that is absorbed by an earlier derivation of the same sequent, or export refused / accepted outside its domain
 ExportDiverges(e) ==
   e.built /\ (IF ~Applicable(e) THEN TRUE
-              ELSE e.exp.ok /\ ( \/ e.exp.lines # Ref(e)
+              ELSE e.exp.ok /\ Len(e.exp.lines) > 0 /\ ( \/ e.exp.lines # Ref(e)
                                  \/ XAbsorbed(e.exp.lines, e.nodes, e.root) # {}
                                  \/ (e.emb.ok /\ e.emb.lines # XEmbed(e.host, e.pfx, e.exp.lines, e.sub)) ))
 \* which sharing patterns the event exercises (counted by the harness: vacuity guards)
